@@ -47,3 +47,42 @@ Proof.
   destruct (own_props body) as [|o l] eqn:E; [|reflexivity].
   exfalso. destruct body as [|c r]; [congruence|]. inversion Hd as [|? ? Hc _]; subst. destruct c; try contradiction. discriminate.
 Qed.
+
+(* the whole @keyframes block: header kept as an at-rule name, one frame object per frame of the source, in source order, each
+   with its own declarations; nothing hoisted out, nothing merged *)
+Definition frame_ok (n : node) : Prop := match n with NFrame _ body => decls_only body /\ body <> [] | _ => False end.
+Definition frame_obj (n : node) : obj := match n with NFrame sel body => OBlock (ONFrame sel) (own_props body) [] | _ => OVar end.
+
+Theorem keyframes_block parent sc sel frames :
+  is_subparse sel = true -> is_media_name sel = false -> Forall frame_ok frames -> frames <> [] ->
+  eval_node parent sc (NBlock sel frames) =
+    ROk ([OBlock (ONIdent true (ident_parse parent sel)) [] (map frame_obj frames)], sc).
+Proof.
+  intros Hsub Hnm Hall Hne. cbn [eval_node_g]. rewrite Hsub, Hnm.
+  set (cp := if sets_current sel then Some (ident_parse parent sel) else parent).
+  assert (forall sc1, (fix go (sc1 : scope) (l : list node) : outcome (list obj) :=
+            match l with
+            | [] => ROk []
+            | c :: r => rbind (eval_node cp sc1 c) (fun '(os, sc2) => rbind (go sc2 r) (fun rest => ROk (os ++ rest)))
+            end) sc1 frames = ROk (map frame_obj frames)) as Hgo.
+  { clear Hne. induction Hall as [|c r Hc Hr IH]; intros sc1; [reflexivity|].
+    destruct c as [| | |s body| | |]; try contradiction. destruct Hc as [Hd Hb].
+    rewrite (frame_eval cp sc1 s body Hd Hb). cbn [rbind]. rewrite IH. reflexivity. }
+  rewrite Hgo. cbn [rbind].
+  assert (filter (fun o => negb (obj_is_block o)) (map frame_obj frames) = [] /\
+          filter obj_is_media (map frame_obj frames) = [] /\
+          filter (fun o => obj_is_block o && negb (obj_is_media o)) (map frame_obj frames) = map frame_obj frames) as (-> & -> & ->).
+  { clear Hne Hgo. induction Hall as [|c r Hc Hr (A & B & C)]; [auto|].
+    destruct c as [| | |s body| | |]; try contradiction.
+    cbn [map frame_obj filter obj_is_block obj_is_media negb andb]. rewrite A, B, C. auto. }
+  cbn [flat_map app printable filter]. destruct frames as [|f fr]; [contradiction|]. reflexivity.
+Qed.
+
+(* inside an @media block (the only enclosing name is an at-rule), an at-rule header is not prefixed *)
+Lemma at_header_in_media mp mt mr toks t r :
+  mp = mt :: mr -> is_subp mt = true -> toks = t :: r -> is_subp t = true -> count_amp toks = 0 -> str_eqb t $"@media" = false ->
+  ident_parse (Some [mp]) toks = [pairwise_filter toks].
+Proof.
+  intros -> Hm -> Ht Hc Hnm. unfold ident_parse, names_of. rewrite Ht. cbn [root flat_map app]. unfold root_one. rewrite Hc.
+  cbn [Nat.ltb Nat.leb]. rewrite Hnm. cbn [map]. rewrite Hm. reflexivity.
+Qed.
